@@ -39,3 +39,9 @@ package gmqtt
 //@ ensures [C01] m.Dup == old(m.Dup) && m.QoS == old(m.QoS) && m.Retained == old(m.Retained) && m.Topic == old(m.Topic)
 //@ loop 1 invariant newMsg != nil && isfresh(newMsg) && len(newMsg.Payload) == len(m.Payload) && (forall i int :: 0 <= i && i < len(m.Payload) ==> newMsg.Payload[i] == m.Payload[i])
 //@ loop 1 invariant len(newMsg.Payload) == 0 || isfresh(newMsg.Payload)
+
+// Message.TotalBytes: the size of the PUBLISH packet that carries the message (not verified against the encoder
+// in this revision: an uninterpreted function of the message and the protocol version).
+//@ spec func msgBytes(m *Message, v byte) uint32 = ?
+//@ func (*Message).TotalBytes trusted pure
+//@ ensures result == msgBytes(m, version)
